@@ -1061,6 +1061,9 @@ func hasTrigger(in Input) bool {
 	for _, f := range triggerFilters {
 		t[f] = true
 	}
+	for _, f := range []string{`.data.foo`, `.spec.replicas`, `.metadata.labels.rev`} {
+		t[f] = true
+	}
 	chk := func(items []Item) bool {
 		for _, it := range items {
 			if !it.Raw && t[it.Filter] {
@@ -1157,7 +1160,7 @@ func Corpus() []core.In[Input] {
 		// F8 (recorded finding of C08): a scalar jq result is stored as {}
 		mk("trigger", Input{Version: "v1", Ctxs: []Ctx{event(".spec.replicas", true, pod("p", lbl, 3))}}),
 	}
-	return append(append(append(cases, flowCorpus()...), hookCorpus()...), sharedCorpus()...)
+	return append(append(append(append(cases, flowCorpus()...), hookCorpus()...), sharedCorpus()...), winCorpus()...)
 }
 
 func Gen(r *core.Rng, tier string) ([]core.In[Input], bool) {
@@ -1243,6 +1246,21 @@ func Gen(r *core.Rng, tier string) ([]core.In[Input], bool) {
 		ins = append(ins, core.In[Input]{Input: g.hookShared(triggerPct), Stream: "hook-shared"})
 	}
 	g.served = false
+	// windows: deliveries while the binding's events are still locked, Synchronization runs, the unlock (see win.go)
+	nwin := 90
+	switch tier {
+	case "thorough":
+		nwin = 3000
+	case "search":
+		nwin = 1500
+	}
+	for i := 0; i < nwin; i++ {
+		triggerPct := 0
+		if i%12 == 11 {
+			triggerPct = 60
+		}
+		ins = append(ins, core.In[Input]{Input: g.window(triggerPct), Stream: "window"})
+	}
 	// low-rate trigger streams of the recorded findings F30 (two bindings of one type share a name) and
 	// F31 (a validating and a mutating binding share a name); the ordinary hook stream never produces them
 	ndup := 6
@@ -1262,6 +1280,7 @@ func Gen(r *core.Rng, tier string) ([]core.In[Input], bool) {
 		ins = append(ins, hookExhaustive()...)
 		ins = append(ins, hookConvExhaustive()...)
 		ins = append(ins, sharedExhaustive()...)
+		ins = append(ins, winExhaustive()...)
 	}
 	if tier == "thorough" || tier == "search" {
 		// every documented kind x jqFilter {unset, object-valued, scalar} x keepFullObjectsInMemory x
@@ -1297,7 +1316,7 @@ func Gen(r *core.Rng, tier string) ([]core.In[Input], bool) {
 		panic("jq oracle: " + err.Error())
 	}
 	for i := range ins {
-		if (ins[i].Stream == "random" || ins[i].Stream == "flow" || ins[i].Stream == "hook" || ins[i].Stream == "hook-shared") && hasTrigger(ins[i].Input) {
+		if (ins[i].Stream == "random" || ins[i].Stream == "flow" || ins[i].Stream == "hook" || ins[i].Stream == "hook-shared" || ins[i].Stream == "window") && hasTrigger(ins[i].Input) {
 			ins[i].Stream = "trigger"
 		}
 	}
@@ -1305,7 +1324,7 @@ func Gen(r *core.Rng, tier string) ([]core.In[Input], bool) {
 }
 
 var Driver = core.Driver[Input, Obs]{
-	Spec: core.Spec{Property: "C09", Imports: []string{"Json", "C09_Model", "C09_Spec", "C09_Corr"}, Corr: "C09_Corr", Triggers: []string{"F8", "F30", "F31"}, ShrinkKey: "ctxs",
-		Rule: "lists of 1-4 binding contexts rendered by ConvertBindingContextList(version,ctxs).Json(); objects go through the real applyFilter(+RemoveFullObject), kubernetes contexts through ConvertKubeEventToBindingContext; expected jq values from /usr/bin/jq; streams: corpus (F3/F15 witnesses, doc examples, legacy string filter results), random (documented kinds x options), trigger (jq results that are not one object, F8), malformed (undocumented struct states: model agreement only), exhaustive (thorough: kind x jqFilter x keepFull x snapshots x version), flow (one kubernetes binding on a fake cluster: the files of the real informer path), hook (a hook with kubernetes and schedule/validating/mutating/conversion bindings that share names across the binding types and include different snapshots: ONE combined array rendered as Hook.Run does, namesakes in both orders; conversion bindings with 1-4 rules, several bindings per CRD, a request per rule), hook-shared (2-3 kubernetes bindings of one hook on ONE resource - one shared client-go informer - with different keepFullObjectsInMemory / jqFilter / executeHookOnEvent / includeSnapshotsFrom: every cluster operation is one delivery to each of them, the combined array mixes their Synchronization and Event contexts and is rendered after all of them handled the deliveries; every item is judged with ITS binding's options), in every second flow / hook case and every fifth list the objects are shaped as an API server returns them (metadata.managedFields with 1-3 managers, uid, resourceVersion, creationTimestamp, generation, sometimes the last-applied annotation; tags objects:api-server-shaped / jq-reads:server-fields) and the jqFilter mostly reads those fields (`.`, `.metadata`, `{m: [.metadata.managedFields[]?.manager]}`, ...): /usr/bin/jq answers for the object as created in the cluster, the model runs jq on ApplyFilter's deep copy of it; trigger-F30 / trigger-F31 (hooks in which two bindings of one type, or a validating and a mutating binding, share a name: recorded findings); non-trivial = some context carries objects, snapshots or a review; distinct = distinct input JSON"},
+	Spec: core.Spec{Property: "C09", Imports: []string{"Json", "C09_Model", "C09_Spec", "C09_WinModel", "C09_Corr"}, Corr: "C09_Corr", Triggers: []string{"F8", "F30", "F31"}, ShrinkKey: "ctxs",
+		Rule: "lists of 1-4 binding contexts rendered by ConvertBindingContextList(version,ctxs).Json(); objects go through the real applyFilter(+RemoveFullObject), kubernetes contexts through ConvertKubeEventToBindingContext; expected jq values from /usr/bin/jq; streams: corpus (F3/F15 witnesses, doc examples, legacy string filter results), random (documented kinds x options), trigger (jq results that are not one object, F8), malformed (undocumented struct states: model agreement only), exhaustive (thorough: kind x jqFilter x keepFull x snapshots x version), flow (one kubernetes binding on a fake cluster: the files of the real informer path), hook (a hook with kubernetes and schedule/validating/mutating/conversion bindings that share names across the binding types and include different snapshots: ONE combined array rendered as Hook.Run does, namesakes in both orders; conversion bindings with 1-4 rules, several bindings per CRD, a request per rule), hook-shared (2-3 kubernetes bindings of one hook on ONE resource - one shared client-go informer - with different keepFullObjectsInMemory / jqFilter / executeHookOnEvent / includeSnapshotsFrom: every cluster operation is one delivery to each of them, the combined array mixes their Synchronization and Event contexts and is rendered after all of them handled the deliveries; every item is judged with ITS binding's options), window (one kubernetes binding whose events are still LOCKED when the cluster changes: one object modified 2-4 times in a row inside / outside the part the jqFilter selects, alone or interleaved with other objects, runs of the Synchronization hook, the unlock where the driver puts it, deliveries afterwards; every file handed out is rendered as Hook.Run does and /usr/bin/jq is asked again about the object each Event file shows; thorough: every sequence of 2-4 modifications over {data, spec, label} x filter x keepFull x {alone, interleaved}), in every second flow / hook case and every fifth list the objects are shaped as an API server returns them (metadata.managedFields with 1-3 managers, uid, resourceVersion, creationTimestamp, generation, sometimes the last-applied annotation; tags objects:api-server-shaped / jq-reads:server-fields) and the jqFilter mostly reads those fields (`.`, `.metadata`, `{m: [.metadata.managedFields[]?.manager]}`, ...): /usr/bin/jq answers for the object as created in the cluster, the model runs jq on ApplyFilter's deep copy of it; trigger-F30 / trigger-F31 (hooks in which two bindings of one type, or a validating and a mutating binding, share a name: recorded findings); non-trivial = some context carries objects, snapshots or a review; distinct = distinct input JSON"},
 	Gen: Gen, Run: Run, Render: Render, PerShard: 20, Workers: 8, CaseTimout: 20 * time.Second,
 }
